@@ -20,6 +20,8 @@ def run(repo: Repo, chk: Check):
     chk.rule("R06.e", "every lowering that wraps compiled statements into a 'jal L ... L: ... j ra' subroutine preserves ra around them", floor=1)
     chk.rule("R06.f", "ra is restored after the function's end label (early returns pass through the restore); in the push/pop "
                       "convention ra is pushed after the argument pops and the inserts are applied from the highest index down", floor=3)
+    chk.rule("R06.i", "whether a function must save ra is decided from the instruction list that is emitted for it (every '*al' opcode in "
+                      "self.code), not from a side table", floor=1)
     chk.rule("R06.h", "a return omits the jump to the function's end label only when it is the last statement of the function body "
                       "itself: the ra logic finds the exit points of a function by that jump and by the end label", floor=1)
     chk.rule("R06.g", "at a call site arguments are stored before the jal and the result is read after it; a return stores the "
@@ -220,9 +222,38 @@ def r06cdf(repo, chk):
                 flags.setdefault(st.targets[0].id, []).append(par.test)
     # which flag is the 'returns' flag: its test mentions "ra"
     ret_flags = [f for f, tests in flags.items() if any('"ra"' in norm(t).replace("'", '"') for t in tests)]
-    call_flags = [f for f, tests in flags.items() if any("al" in norm(t) for t in tests) and f not in ret_flags]
+    # the other flag: the second name in the condition that guards the insertion of push ra
+    call_flags = []
+    for node in ast.walk(fn):
+        if isinstance(node, ast.If) and isinstance(node.test, ast.BoolOp) and isinstance(node.test.op, ast.And) and all(isinstance(v, ast.Name) for v in node.test.values) \
+                and any(isinstance(c, ast.Call) and c.args and isinstance(c.args[0], ast.Constant) and c.args[0].value == "push" for c in ast.walk(node)):
+            call_flags = [v.id for v in node.test.values if v.id not in ret_flags]
     if not ret_flags or not call_flags:
         raise AnalysisError("add_ra_instructions: the flags for 'has calls' / 'has returns' were not recognised")
+    # R06.i: 'this function makes calls' is read off the instruction list that is emitted
+    for cf_ in call_flags:
+        defs = [st for st in ast.walk(fn) if isinstance(st, ast.Assign) and len(st.targets) == 1 and norm(st.targets[0]) == cf_]
+        okc = True
+        detail = []
+        for st in defs:
+            v = st.value
+            if isinstance(v, ast.Constant) and v.value is False:
+                continue
+            in_scan = False
+            p = st
+            while p is not None and p is not fn:
+                if isinstance(p, ast.For) and "self.code" in norm(p.iter):
+                    in_scan = True
+                p = getattr(p, "parent", None)
+            par = getattr(st, "parent", None)
+            test_ok = isinstance(par, ast.If) and ".op" in norm(par.test) and "al" in norm(par.test)
+            if not (isinstance(v, ast.Constant) and v.value is True and in_scan and test_ok):
+                okc = False
+                detail.append(norm(st))
+        chk.judge("R06.i", f"compile_pass:{qual}:'makes calls' is decided by scanning the emitted instruction list", okc and bool(defs),
+                  f"the flag {cf_} is set by {detail or 'nothing'}: it must be derived from the opcodes in self.code (the instructions that are emitted for this "
+                  f"function, including those spliced in from inlined callees); a side table misses a 'jal' that arrives through an inlined function",
+                  {"definitions": [norm(d) for d in defs]}, where)
     fe = FnEval(repo, cp, fn)
     for label, op, tgt in forms:
         recognised = False
@@ -350,7 +381,7 @@ def r06g(repo, chk, R="R06.g"):
               "a return jumps to the function's end label before (or in another section than) storing its value", None, f"{g.path}:{ret_fn.lineno} in {ret_fn.qual}")
 
 
-def r06h(repo, chk):
+def r06h(repo, chk, R="R06.h"):
     g = repo.mod("generate_code")
     hs = repo.handlers()
     fn = g.func(f"{GEN_CLASS}.{hs['Return']}")
@@ -369,7 +400,7 @@ def r06h(repo, chk):
                 if (isinstance(t.ops[0], (ast.NotEq, ast.IsNot)) and p) or (isinstance(t.ops[0], (ast.Eq, ast.Is)) and not p):
                     ok = True
         only = len([1 for t, p in atoms if "inline" not in norm(t)]) <= 1
-        chk.judge("R06.h", "generate_code:handle_return:jump to the end label unless the return is the last statement of the body", ok and only,
+        chk.judge(R, "generate_code:handle_return:jump to the end label unless the return is the last statement of the body", ok and only,
                   f"the jump to '<name>end' is emitted under {desc}: expected exactly 'node is not func_node.body[-1]'. A return elsewhere (end of an if-branch, "
                   f"end of a loop body) that omits the jump is not an exit point for add_ra_instructions (pop ra is misplaced under push/pop) and inside a loop it "
                   f"falls onto the back jump", {"guards": desc}, s.where())
